@@ -77,6 +77,7 @@ func c17Handshake(r *eng.Run, retained *[]func() string) string {
 		}
 		s.Reject = 0
 	}
+	s.EditResult = s.Kind == 1 && r.T.Chance(sim.LCfg, 1, 3)
 	t := roundTrip(r, c, s, int64(r.T.U32(sim.LMisc)), DrawSeg(r), DrawSeg(r))
 	name := fmt.Sprintf("handshake(dialer%d,upgrader%d,ext=%d)", c.Debug, s.Kind, s.Ext)
 	if t.Server.ok() != t.Client.ok() {
@@ -362,6 +363,16 @@ func c17Close(r *eng.Run, retained *[]func() string) string {
 func c17MaskHelpers(r *eng.Run) string {
 	n := []int{0, 1, 3, 7, 8, 9, 31, 64, 1000}[r.T.Int(sim.LLen, 9)]
 	payload := patBytes(r.T.U32(sim.LPaySeed), 0, n)
+	// The payload as applications often have it: a window of a larger buffer
+	// (a read buffer with the next frame behind it, scratch[:n]).
+	var room, roomKeep []byte
+	if r.T.Bool(sim.LCfg) {
+		room = patBytes(77, 0, 2*n+16+r.T.Int(sim.LLen, 64))
+		copy(room, payload)
+		payload = room[:n]
+		roomKeep = append([]byte(nil), room...)
+		r.Probe("mask_helpers_payload_inside_larger_buffer")
+	}
 	keep := append([]byte(nil), payload...)
 	f := ws.NewBinaryFrame(payload)
 	// The frame may already carry a mask in its header (e.g. a frame read by
@@ -392,11 +403,17 @@ func c17MaskHelpers(r *eng.Run) string {
 	if !bytes.Equal(payload, keep) {
 		r.Failf("caller_slice_modified", "%s (header already masked=%v) modified the caller's %d byte payload%s", name, pre, n, firstDiff(payload, keep))
 	}
+	if room != nil && !bytes.Equal(room, roomKeep) {
+		r.Failf("caller_slice_modified", "%s (header already masked=%v): the caller's buffer behind the %d byte payload was overwritten%s", name, pre, n, firstDiff(room, roomKeep))
+	}
 	if !bytes.Equal(out.Payload, want) {
 		r.FailProp("C02", "cipher_mismatch", "%s (header already masked=%v) returned a payload that is not the RFC XOR of the input", name, pre)
 	}
 	for i := range payload {
 		payload[i] ^= 0x5a
+	}
+	for i := range room {
+		room[i] ^= 0x5a
 	}
 	if !bytes.Equal(out.Payload, want) {
 		r.Failf("result_aliases_caller_slice", "%s: the returned frame changed when the caller scribbled on its slice", name)
